@@ -286,6 +286,17 @@ impl Scenario for C15 {
                 (0..16).map(|_| (wl.u32() % ((1u32 << npos) - 1)) + 1).collect()
             };
             if many {
+                // far more errors than any fixed-size report would hold
+                {
+                    let mut recs = good.clone();
+                    let nbad = *wl.pick(&[16usize, 17, 18, 33, 65]);
+                    for p in 1..=nbad.min(k - 1) {
+                        let kind = *wl.pick(&NONTERMINAL);
+                        recs[p] = bad_record(&mut wl, &Swarm { size: SizeRegime::Tiny, ..sw.clone() }, kind);
+                    }
+                    ctx.obs.count("probe:seventeen-or-more-errors");
+                    emit(recs, ctx, &mut sm, "many-errors");
+                }
                 // bad records late in a long message: around record 256 and
                 // at the very end
                 for _ in 0..4 {
